@@ -536,6 +536,13 @@ func runForward(t *rapid.T, or fwdOracles, inOrderOnly bool, withNack bool) *fwd
 			case "dup":
 				back := rapid.IntRange(1, 200).Draw(t, "back")
 				e := h.next - back
+				if rapid.IntRange(0, 3).Draw(t, "dupAtTheWrap") == 0 {
+					// the packets whose 16-bit number is 0 or 65535, if the stream has just passed them
+					w := (h.next-1)&^0xffff - rapid.IntRange(0, 1).Draw(t, "wrapSide")
+					if w >= h.start && h.next-w <= 400 {
+						e, back = w, h.next-w
+					}
+				}
 				if e < h.start || h.arr[e] == 0 {
 					continue
 				}
